@@ -34,7 +34,7 @@ func buildHeaderRequest(ctx context.Context, protocol uint32, blocks *storage.Bl
 	}
 
 	// Add block hashes in reverse order
-	for ; delta <= blocks.LastHeight(); delta *= 2 {
+	for delta <= blocks.LastHeight() {
 		hash, err := blocks.Hash(ctx, blocks.LastHeight()-delta)
 		if err != nil {
 			return getheaders, err
@@ -45,6 +45,12 @@ func buildHeaderRequest(ctx context.Context, protocol uint32, blocks *storage.Bl
 		}
 		if blocks.LastHeight() <= delta {
 			break
+		}
+
+		if delta == 0 {
+			delta = 1 // doubling zero would add the top block over and over and nothing below it
+		} else {
+			delta *= 2
 		}
 	}
 
